@@ -198,8 +198,11 @@ class Gen:
         named = []
         if allow_named and self.tc.mapping and rng.random() < 0.4:
             for _ in range(rng.choice((1, 2))):
-                named.append(self.expr(depth, rng.choice((0, 0, 1))) + [('=>',)] +
-                             self.expr(depth, rng.choice((0, 1, 2))))
+                left = self.expr(depth, rng.choice((0, 0, 1)))
+                if self.tc.suffixes and rng.random() < 0.35:
+                    # a suffix operator standing directly in front of the keyword operator
+                    left = left + [('op', rng.choice(self.tc.suffixes))]
+                named.append(left + [('=>',)] + self.expr(depth, rng.choice((0, 1, 2))))
         # trailing empty slot before named args is legal (incomplete_arglist ',' named_arglist)
         if named and slots and allow_skip and rng.random() < 0.1:
             slots.append([])
@@ -252,6 +255,7 @@ def legacy_tc():
 
 
 NEW_OPS = [('**', None), ('|>', None), ('@@', 'at_at'), ('===', None), ('xor', None), ('~', None), ('!', None),
+           ('isNull', None), ('fact', 'factorial'), ('then', None),
            ('<>', 'ne2'), ('%', None), ('#', 'hash'), ('#>', None), ('##', 'hh')]
 OT = yfactory.OperatorType
 
